@@ -47,7 +47,8 @@ RULE = ("corpus replays first (original F-C06a witness, F-C06b witness); then EX
 GENERATED_ITEMS = []
 EXTRACT_TAGS = ["writer"]
 ASSUMPTIONS = [
-    "a packet handed to _packet_queue is non-empty (every MQTT packet has at least 2 bytes)",
+    "at most one CONNECT is queued per connection (conn_once): reconnect() is the only caller of _send_connect and starts a new connection (new socket, new _WebsocketWrapper, drained queue, _connect_queued = False) each time",
+    "the theorems need no non-emptiness assumption on packets; the harness only queues real MQTT packets (>= 2 bytes)",
     "WebSocket: total bytes queued on one connection < 2^63 (needed for the 64-bit length form; MQTT packets are < 2^28+5 bytes)",
     "os.urandom(4) returns 4 bytes (any key values are covered by the theorem)",
     "inbound WebSocket control frames (PING/CLOSE answered by a direct socket.send in _recv_impl) are outside the property's quantifier and outside the model",
